@@ -20,7 +20,7 @@ def run_op(world, op, kill=None, hooks=None):
     if is_cmd(op):
         argv = [world.expand(a) for a in op["argv"]]
         cwd = world.expand(op["cwd"]) if op.get("cwd") else None
-        return world.run_cmd(argv, cwd=cwd, kill=kill, hooks=hooks), True
+        return world.run_cmd(argv, cwd=cwd, kill=kill or op.get("kill"), hooks=hooks), True
     return None, world.apply_env(op)
 
 
